@@ -600,6 +600,16 @@ theorem C09_read_after_history (hs : List HStep) (root : T) (p : Path) (f : Fact
         (if f.nd then derive n else [], if f.miss then deriveMiss n else [])) :=
   (readAt_spec _ p f (C09_fresh_history hs root hf hv)).1
 
+/-- `rebind(path -> MISSING_VALUE)` on a List item leaves a placeholder that the list's change handler
+drops: after a NOTIFIED call every List on the way to an updated node (the handler of each of them
+runs) holds no placeholder; after a silent call nobody's handler runs — `C09_silent_off`: no event,
+not even an empty one — and the placeholder stays (known finding C02-F03). -/
+theorem C09_placeholders_dropped (paths : List Path) (hne : paths.isEmpty = false) (m : Meta)
+    (items : List (Key × T)) :
+    ∃ m' items', purgeSet paths (.node m .list items) = .node m' .list items' ∧
+      ∀ kv ∈ items', isMissingLeaf kv.2 = false :=
+  purgeSet_list_clean paths hne m items
+
 /-! ## Handlers that mutate during notification (depth-bounded re-entrancy)
 
 `stepR react fuel root recv op` is one notified call whose receivers' handlers may each issue a
